@@ -455,7 +455,7 @@ def parse_dirty(s):
     return out
 
 
-def emit_dirty_probe(sc, ops, tag, name="D"):
+def emit_dirty_probe(sc, ops, tag, name="D", load_every=4):
     sc.add("inst %s" % name)
     sc.add("on %s save" % name)
     prev = sc.add("on %s xdump" % name, (tag, "probe0"))
@@ -464,6 +464,10 @@ def emit_dirty_probe(sc, ops, tag, name="D"):
         d = sc.add("on %s dirty" % name)
         sc.add("on %s save" % name)
         cur = sc.add("on %s xdump" % name, (tag, "probe", i, w, prev, d))
+        if load_every and i % load_every == 0:
+            sc.add("clone %s %sR" % (name, name))
+            sc.add("on %sR adump" % name, (tag, "probeload", i, cur))
+            sc.add("drop %sR" % name)
         prev = cur
     sc.add("drop %s" % name)
 
@@ -487,3 +491,141 @@ def judge_dirty_probe(sc, res):
         if miss:
             bad.append((tag[0], tag[2], tag[3], miss, {k: (a.get(k), b.get(k)) for k in miss[:3]}))
     return bad, n
+
+
+# ---------------------------------------------------------------------------
+# C10 correspondence: the extracted SaveLoad model is driven by micro-operations synthesised from the observed
+# change of every ALT block per harness op; compared: status words + tip after every op, dirty set before every
+# save (model dirty must be a subset of isDirty()), result of load vs a reloaded instance.
+def _bits(st):
+    return dict(lvl=st & 7, fblock=bool(st & 32), fpop=bool(st & 64), fchild=bool(st & 128), haspl=bool(st & 256),
+                active=bool(st & 512))
+
+
+def _alt_view(xdump):
+    blocks = {}
+    best = None
+    for l in xdump.split(";"):
+        m = _PROJ["ALT"].match(l)
+        if m:
+            pl = [x for x in _re.split(r"[,|\[\]]", m.group(4)) if x]
+            ce = [x for x in m.group(5).strip("[]").split(",") if x]
+            blocks[m.group(1)] = dict(st=int(m.group(3)), pl=pl, ce=ce)
+        elif l.startswith("ALT_best_"):
+            best = l[len("ALT_best_"):]
+    return blocks, best
+
+
+class MicroSynth:
+    def __init__(self, g):
+        self.g = g
+        self.eids = {}
+
+    def eid(self, s):
+        return self.eids.setdefault(s, len(self.eids) + 1)
+
+    def ops_for(self, before, after, best0, best1):
+        out = []
+        removed = sorted((a for a in before if a not in after), key=num)
+        for a in sorted(after, key=num):
+            b1 = after[a]
+            n = num(a)
+            s1 = _bits(b1["st"])
+            if a in before:
+                s0 = _bits(before[a]["st"])
+                pl0 = before[a]["pl"]
+            else:
+                par = self.g.alt[a]["parent"]
+                out.append("hdr %d %d" % (n, num(par)))
+                pf = par in before and (before[par]["st"] & 224) != 0
+                s0 = dict(lvl=1, fblock=False, fpop=False, fchild=pf, haspl=False, active=False)
+                pl0 = []
+            cur = dict(s0)
+            for f in ("fblock", "fpop", "fchild"):
+                if cur[f] and not s1[f]:
+                    out.append("reval %d %s -" % (n, f))
+                    cur[f] = False
+            if cur["haspl"] and not s1["haspl"]:
+                out.append("rmpl %d" % n)
+                cur["haspl"] = False
+                if not cur["fpop"]:
+                    cur["lvl"] = min(cur["lvl"], 1)
+            if (not cur["haspl"]) and s1["haspl"]:
+                out.append("setpl %d %s" % (n, ",".join(str(num(x)) for x in b1["pl"]) or "-"))
+                cur["haspl"] = True
+            if s1["active"] and not cur["active"]:
+                es = ",".join("%d:%d" % (self.eid(e), num(e.split(">")[0])) for e in b1["ce"]) or "-"
+                out.append("apply %d %d %s" % (n, max(s1["lvl"], cur["lvl"]), es))
+                cur["active"] = True
+                cur["lvl"] = max(s1["lvl"], cur["lvl"])
+            elif cur["active"] and not s1["active"]:
+                out.append("unapply %d" % n)
+                cur["active"] = False
+            if s1["lvl"] > cur["lvl"]:
+                if s1["lvl"] == 2 and not cur["active"]:
+                    out.append("connect %d" % n)
+                elif cur["active"]:
+                    out.append("apply %d %d -" % (n, s1["lvl"]))
+                else:
+                    out.append("apply %d %d -" % (n, s1["lvl"]))
+                    out.append("unapply %d" % n)
+                cur["lvl"] = s1["lvl"]
+            for f in ("fblock", "fpop", "fchild"):
+                if s1[f] and not cur[f]:
+                    out.append("inval %d %s -" % (n, f))
+                    cur[f] = True
+        if removed:
+            out.append("remove %s" % ",".join(str(num(a)) for a in removed))
+        if best1 != best0 and best1 is not None:
+            out.append("settip %d" % num(best1))
+        return out
+
+
+def model_script_for_probe(sc, res, gens):
+    """-> (lines for the model driver, expectations) from the dirty-probe observations of every history.
+    gens: {tagbase: generator}"""
+    lines, exp = [], []
+    by_hist = {}
+    for i, tag in sc.meta.items():
+        if tag[1] in ("probe0", "probe", "probeload"):
+            by_hist.setdefault(tag[0], []).append((i, tag))
+    k = 0
+    for tb, items in by_hist.items():
+        g = gens.get(tb)
+        if g is None:
+            continue
+        syn = MicroSynth(g)
+        first = [x for x in items if x[1][1] == "probe0"]
+        if not first or res.get(first[0][0]) in (None, "DEAD"):
+            continue
+        prev, best0 = _alt_view(res[first[0][0]])
+        k += 1
+        lines.append("h%d_i minit" % k)
+        lines.append("h%d_s mop save" % k)
+        steps = sorted((x for x in items if x[1][1] == "probe"), key=lambda x: x[1][2])
+        loads = {x[1][2]: x[0] for x in items if x[1][1] == "probeload"}
+        ok = True
+        for i, tag in steps:
+            cur = res.get(i)
+            d = res.get(tag[5])
+            if cur in (None, "DEAD") or d in (None, "DEAD"):
+                break
+            after, best1 = _alt_view(cur)
+            pos = tag[2]
+            for j, mo in enumerate(syn.ops_for(prev, after, best0, best1)):
+                lines.append("h%d_%d_m%d mop %s" % (k, pos, j, mo))
+                exp.append(("h%d_%d_m%d" % (k, pos, j), "mop", tb, pos, tag[3], "ok"))
+            lines.append("h%d_%d_d mdirty" % (k, pos))
+            exp.append(("h%d_%d_d" % (k, pos), "dirty", tb, pos, tag[3],
+                        sorted(num(x) for x in parse_dirty(d.split()[0]))))
+            lines.append("h%d_%d_s mop save" % (k, pos))
+            lines.append("h%d_%d_t mstate" % (k, pos))
+            want = "tip=%d %s" % (num(best1), ",".join(sorted("%d:%d" % (num(a), b["st"]) for a, b in after.items())) or "-")
+            exp.append(("h%d_%d_t" % (k, pos), "state", tb, pos, tag[3], want))
+            if pos in loads and res.get(loads[pos]) not in (None, "DEAD"):
+                la, lb = _alt_view(res[loads[pos]].replace("ALT_", "ALT_"))
+                lines.append("h%d_%d_l mload" % (k, pos))
+                wl = "tip=%d %s" % (num(lb), ",".join(sorted("%d:%d" % (num(a), b["st"]) for a, b in la.items())) or "-")
+                exp.append(("h%d_%d_l" % (k, pos), "load", tb, pos, tag[3], wl))
+            prev, best0 = after, best1
+    return lines, exp
